@@ -221,6 +221,9 @@ where
 
     pub(crate) fn invalidate_all(&self) {
         let now = self.inner.current_time_from_expiration_clock();
+        // A switch point between the clock reading and the store of the watermark.
+        #[cfg(mini_moka_verif)]
+        crate::verif::sp("invalidate_all.stamped");
         self.inner.set_valid_after(now);
     }
 }
